@@ -623,6 +623,150 @@ Proof.
   revert b. induction a as [|x a IH]; intros [|y b]; cbn; try reflexivity. now rewrite IH.
 Qed.
 
+(* ---- the formatting of the joining space: what all cells of the gap share ---- *)
+Lemma all_color_uniform (get : sgr -> option color) (l : list sgr) s0 :
+  l <> [] -> (forall s, In s l -> s = s0) -> all_color get l = get s0.
+Proof.
+  intros NE H. destruct l as [|s r]; [congruence|]. cbn [all_color].
+  rewrite (H s) by now left. destruct (get s0) as [c|] eqn:E; [|reflexivity].
+  replace (forallb (fun t => opt_eqb color_eqb (get t) (Some c)) r) with true; [reflexivity|].
+  symmetry. apply forallb_forall. intros t Ht. rewrite (H t) by now right. rewrite E. cbn.
+  apply color_eqb_refl.
+Qed.
+
+Lemma forallb_uniform (get : sgr -> bool) (l : list sgr) s0 :
+  l <> [] -> (forall s, In s l -> s = s0) -> forallb get l = get s0.
+Proof.
+  intros NE H. destruct (get s0) eqn:E.
+  - apply forallb_forall. intros t Ht. now rewrite (H t Ht).
+  - destruct l as [|s r]; [congruence|]. cbn [forallb]. rewrite (H s) by now left. now rewrite E.
+Qed.
+
+(* a uniformly formatted gap: the joining space has exactly that formatting *)
+Theorem meet_sgr_uniform (l : list sgr) s0 : l <> [] -> (forall s, In s l -> s = s0) -> meet_sgr l = s0.
+Proof.
+  intros NE H. unfold meet_sgr.
+  rewrite !(all_color_uniform _ l s0 NE H), !(forallb_uniform _ l s0 NE H). now destruct s0.
+Qed.
+
+Lemma all_color_le (get : sgr -> option color) (l : list sgr) s :
+  In s l -> color_le (all_color get l) (get s) = true.
+Proof.
+  intros Hin. destruct l as [|s1 r]; [destruct Hin|]. cbn [all_color].
+  destruct (get s1) as [c|] eqn:E; [|reflexivity].
+  destruct (forallb (fun t => opt_eqb color_eqb (get t) (Some c)) r) eqn:F; [|reflexivity].
+  cbn [color_le]. destruct Hin as [<-|Hin].
+  - rewrite E. cbn. apply color_eqb_refl.
+  - rewrite forallb_forall in F. now apply F.
+Qed.
+
+Lemma forallb_le (get : sgr -> bool) (l : list sgr) s : In s l -> implb (forallb get l) (get s) = true.
+Proof.
+  intros Hin. destruct (forallb get l) eqn:F; [|reflexivity]. cbn.
+  rewrite forallb_forall in F. now apply F.
+Qed.
+
+(* in general: the joining space shows nothing that some cell of the gap does not show *)
+Theorem meet_sgr_le (l : list sgr) s : In s l -> sgr_le (meet_sgr l) s = true.
+Proof.
+  intros Hin. unfold sgr_le, meet_sgr.
+  cbn [s_fg s_bg s_bold s_dark s_italic s_underline s_blink s_invert].
+  rewrite !(all_color_le _ l s Hin), !(forallb_le _ l s Hin). reflexivity.
+Qed.
+
+Theorem meet_joiner_uniform (gap : list cell) st : gap <> [] -> (forall c, In c gap -> snd c = st) ->
+  meet_joiner gap = (32%N, st).
+Proof.
+  intros NE H. unfold meet_joiner. f_equal. apply meet_sgr_uniform.
+  - destruct gap; [congruence|discriminate].
+  - intros s Hs. apply in_map_iff in Hs. destruct Hs as (c & <- & Hc). now apply H.
+Qed.
+
+Theorem meet_joiner_le (gap : list cell) c : In c gap ->
+  fst (meet_joiner gap) = 32%N /\ sgr_le (snd (meet_joiner gap)) (snd c) = true.
+Proof. intros H. split; [reflexivity|]. apply meet_sgr_le. now apply in_map. Qed.
+
+(* ---- blocks and inner_gaps cut the list up: leading spaces, word, gap, word, ..., trailing spaces ---- *)
+Section Partition.
+Context {A : Type}.
+Variable sp : A -> bool.
+Definition all_sp (l : list A) : Prop := forall x, In x l -> sp x = true.
+
+(* g0 ++ w0 ++ g1 ++ w1 ++ ... *)
+Fixpoint weave2 (gaps words : list (list A)) : list A :=
+  match gaps, words with
+  | g :: gs, w :: ws => g ++ w ++ weave2 gs ws
+  | _, _ => []
+  end.
+
+Lemma interleave_weave2 : forall (B G : list (list A)) p, length B = length G ->
+  interleave (p :: B) G = p ++ weave2 G B.
+Proof.
+  induction B as [|b B IH]; intros [|g G] p L; cbn in L; try discriminate.
+  - cbn. now rewrite app_nil_r.
+  - change (interleave (p :: b :: B) (g :: G)) with (p ++ g ++ interleave (b :: B) G).
+    rewrite IH by (injection L; auto). reflexivity.
+Qed.
+
+Lemma all_sp_rev_cons x cur : sp x = true -> all_sp cur -> all_sp (x :: cur).
+Proof. intros E H y [<-|Hy]; [exact E|now apply H]. Qed.
+
+Lemma partition_go : forall (l : list A),
+  (forall bc, bc <> [] -> exists trail, all_sp trail /\
+      rev bc ++ l = interleave (blocks_go sp l bc) (gaps_go sp l true []) ++ trail) /\
+  (forall gc, gc <> [] -> all_sp gc -> exists trail, all_sp trail /\
+      rev gc ++ l = weave2 (gaps_go sp l true gc) (blocks_go sp l []) ++ trail) /\
+  (forall gc, all_sp gc -> exists lead trail, all_sp lead /\ all_sp trail /\
+      rev gc ++ l = lead ++ interleave (blocks_go sp l []) (gaps_go sp l false gc) ++ trail).
+Proof.
+  induction l as [|x r (IH1 & IH2 & IH3)]; cbn [blocks_go gaps_go].
+  - repeat split.
+    + intros bc H. exists []. split; [intros ? []|]. destruct bc as [|b bc]; [congruence|]. reflexivity.
+    + intros gc H S. exists (rev gc). split; [|now rewrite app_nil_r].
+      intros y Hy. apply S. now apply in_rev.
+    + intros gc S. exists (rev gc), []. split; [|split; [intros ? []|now rewrite !app_nil_r]].
+      intros y Hy. apply S. now apply in_rev.
+  - destruct (gaps_count sp r) as (C1 & C2 & C3).
+    destruct (sp x) eqn:E.
+    + repeat split.
+      * intros bc H. destruct bc as [|b bc]; [congruence|].
+        destruct (IH2 [x] ltac:(discriminate)) as (trail & T1 & T2).
+        { intros y [<-|[]]. exact E. }
+        exists trail. split; [exact T1|].
+        rewrite interleave_weave2 by (apply C2; discriminate).
+        rewrite <- app_assoc, <- T2. reflexivity.
+      * intros gc H S. destruct (IH2 (x :: gc) ltac:(discriminate)) as (trail & T1 & T2).
+        { now apply all_sp_rev_cons. }
+        exists trail. split; [exact T1|]. rewrite <- T2. cbn [rev]. now rewrite <- app_assoc.
+      * intros gc S. destruct (IH3 (x :: gc)) as (lead & trail & T0 & T1 & T2).
+        { now apply all_sp_rev_cons. }
+        exists lead, trail. split; [exact T0|split; [exact T1|]]. rewrite <- T2. cbn [rev]. now rewrite <- app_assoc.
+    + repeat split.
+      * intros bc H. destruct (IH1 (x :: bc) ltac:(discriminate)) as (trail & T1 & T2).
+        exists trail. split; [exact T1|]. rewrite <- T2. cbn [rev]. now rewrite <- app_assoc.
+      * intros gc H S. destruct gc as [|g gc]; [congruence|].
+        destruct (IH1 [x] ltac:(discriminate)) as (trail & T1 & T2). cbn [rev app] in T2.
+        exists trail. split; [exact T1|].
+        pose proof (C1 [x] ltac:(discriminate)) as L1.
+        destruct (blocks_go sp r [x]) as [|w ws] eqn:EB; [discriminate|].
+        cbn [weave2]. rewrite <- interleave_weave2 by (cbn in L1; lia).
+        rewrite <- !app_assoc. f_equal. rewrite <- T2. reflexivity.
+      * intros gc S.
+        destruct (IH1 [x] ltac:(discriminate)) as (trail & T1 & T2). cbn [rev app] in T2.
+        exists (rev gc), trail. split; [|split; [exact T1|]].
+        -- intros y Hy. apply S. now apply in_rev.
+        -- f_equal. rewrite T2. destruct gc; reflexivity.
+Qed.
+
+(* the list is: leading spaces, then words and inner gaps alternating, then trailing spaces *)
+Theorem blocks_gaps_partition (l : list A) : exists lead trail, all_sp lead /\ all_sp trail /\
+  l = lead ++ interleave (blocks sp l) (inner_gaps sp l) ++ trail.
+Proof.
+  destruct (partition_go l) as (_ & _ & P). destruct (P [] ltac:(intros ? [])) as (lead & trail & H).
+  exists lead, trail. exact H.
+Qed.
+End Partition.
+
 Section Main.
 Variable is_space : char -> bool.
 Definition cell_space (cl : cell) : bool := is_space (fst cl).
@@ -693,5 +837,134 @@ Proof.
     exists out. split; [exact O1|]. rewrite O2.
     unfold greedy_wrap, wrap_items. cbn [map]. rewrite P3, P4. f_equal. f_equal.
     rewrite map_map, combine_map2_swap. apply map_ext. intros [w s]. reflexivity.
+Qed.
+
+(* ---- consequences, each stated on its own ---- *)
+Definition cell_nsp (cl : cell) : bool := negb (cell_space cl).
+
+Lemma cell_space_spf : forall cl, cell_space cl = spf fst is_space cl.
+Proof. reflexivity. Qed.
+
+Lemma cell_blocks_ok inp : Forall (word_ok cell_space) (blocks cell_space (op_cells inp)).
+Proof. apply blocks_ok. Qed.
+
+(* (f)+(a): no exception; every line has between 1 and [columns] cells and neither
+   begins nor ends with a whitespace character *)
+Theorem linesplit_lines_ok inp columns : (1 <= columns)%Z ->
+  exists lines, linesplit is_space inp columns = Ok lines /\
+    Forall (line_ok cell_space (Z.to_nat columns)) (map cells lines).
+Proof.
+  intros Hc. destruct (linesplit_greedy inp columns Hc) as (lines & E & G).
+  exists lines. split; [exact E|]. rewrite G. unfold greedy_wrap.
+  apply wrap_items_lines_ok; [lia|apply cell_blocks_ok].
+Qed.
+
+(* the same in the code's own terms: 1 <= len(line) <= columns *)
+Theorem linesplit_len_le inp columns : (1 <= columns)%Z ->
+  exists lines, linesplit is_space inp columns = Ok lines /\
+    Forall (fun ln => (1 <= len ln <= columns)%Z) lines.
+Proof.
+  intros Hc. destruct (linesplit_lines_ok inp columns Hc) as (lines & E & F).
+  exists lines. split; [exact E|]. rewrite Forall_map in F.
+  eapply Forall_impl; [|exact F]. cbn. intros ln (L & x & y & H1 & _).
+  rewrite len_cells. destruct (cells ln); [discriminate|]. cbn [length] in *. lia.
+Qed.
+
+(* (b): on the text alone the lines are the greedy first-fit wrap of the maximal
+   non-whitespace blocks, joined by U+0020 *)
+Theorem linesplit_text_greedy inp columns : (1 <= columns)%Z ->
+  exists lines, linesplit is_space inp columns = Ok lines /\
+    map text lines =
+    greedy_wrap (Z.to_nat columns) (fun _ => 32%N)
+                (blocks is_space (op_text inp)) (inner_gaps is_space (op_text inp)).
+Proof.
+  intros Hc. destruct (linesplit_greedy inp columns Hc) as (lines & E & G).
+  exists lines. split; [exact E|].
+  rewrite (map_ext text (fun f => map fst (cells f))) by apply text_cells.
+  rewrite <- (map_map cells (map fst)), G.
+  rewrite (greedy_wrap_map fst _ meet_joiner (fun _ => 32%N)) by reflexivity.
+  rewrite op_text_cells, blocks_map, inner_gaps_map. reflexivity.
+Qed.
+
+(* (c): the non-whitespace cells of all lines, concatenated, are the non-whitespace
+   cells of the input, in order, each with its formatting (is_space 32: the joining
+   spaces are whitespace) *)
+Theorem linesplit_conserves inp columns : (1 <= columns)%Z -> is_space 32%N = true ->
+  exists lines, linesplit is_space inp columns = Ok lines /\
+    filter cell_nsp (concat (map cells lines)) = filter cell_nsp (op_cells inp).
+Proof.
+  intros Hc H32. destruct (linesplit_greedy inp columns Hc) as (lines & E & G).
+  exists lines. split; [exact E|]. rewrite G. unfold greedy_wrap.
+  change cell_nsp with (nsp cell_space).
+  rewrite wrap_items_filter.
+  - apply blocks_ok.
+  - apply Forall_forall. intros j Hj. apply in_map_iff in Hj. destruct Hj as (g & <- & _). exact H32.
+  - apply cell_blocks_ok.
+  - rewrite map_length, gaps_blocks_length. lia.
+Qed.
+
+Lemma filter_nsp_nil (l : list cell) :
+  (forall c, In c (map fst l) -> is_space c = true) -> filter (nsp cell_space) l = [].
+Proof.
+  induction l as [|cl l IH]; intros H; [reflexivity|].
+  cbn [filter]. unfold nsp at 1, cell_space at 1. rewrite (H (fst cl)) by now left. cbn [negb].
+  apply IH. intros c Hc. apply H. now right.
+Qed.
+
+(* (e): a text without any word gives no line -- for every [columns], even 0 or negative *)
+Theorem linesplit_no_words inp columns :
+  (forall c, In c (op_text inp) -> is_space c = true) ->
+  linesplit is_space inp columns = Ok [].
+Proof.
+  intros H. unfold linesplit.
+  destruct (linesplit_words_spaces (to_fs inp)) as (spaces & words & E1 & E2 & E3 & E4).
+  rewrite cells_to_fs in E4. rewrite E1. cbn [bind]. rewrite E2. cbn [bind].
+  destruct (blocks_ok cell_space (op_cells inp)) as [BW BC].
+  assert (F : filter (nsp cell_space) (op_cells inp) = []).
+  { apply filter_nsp_nil. now rewrite <- op_text_cells. }
+  rewrite F in BC. destruct words as [|w0 ws]; [reflexivity|].
+  rewrite <- E4 in BW, BC. cbn [map concat] in BW, BC. inversion BW as [|? ? [NE _] _]; subst.
+  destruct (cells w0); [congruence|discriminate].
+Qed.
+
+(* ... and only then (columns >= 1) *)
+Lemma wrap_go_nonempty {A} n (rest : list (A * list A)) cur : wrap_go n cur rest <> [].
+Proof.
+  revert cur. induction rest as [|[j w] r IH]; intros cur; cbn [wrap_go]; [discriminate|].
+  destruct (Nat.leb (length cur + 1 + length w) n); [apply IH|discriminate].
+Qed.
+
+Theorem linesplit_empty_iff inp columns : (1 <= columns)%Z ->
+  exists lines, linesplit is_space inp columns = Ok lines /\
+    (lines = [] <-> forall c, In c (op_text inp) -> is_space c = true).
+Proof.
+  intros Hc. destruct (linesplit_greedy inp columns Hc) as (lines & E & G).
+  exists lines. split; [exact E|]. split.
+  - intros ->. cbn [map] in G. unfold greedy_wrap, wrap_items in G.
+    destruct (blocks cell_space (op_cells inp)) as [|w ws] eqn:EB.
+    + destruct (blocks_ok cell_space (op_cells inp)) as [_ BC]. rewrite EB in BC. cbn [concat] in BC.
+      rewrite op_text_cells. intros c Hc'. apply in_map_iff in Hc'. destruct Hc' as (cl & <- & Hcl).
+      destruct (is_space (fst cl)) eqn:Es; [reflexivity|].
+      assert (Hin : In cl (filter (nsp cell_space) (op_cells inp))).
+      { apply filter_In. split; [exact Hcl|]. unfold nsp, cell_space. now rewrite Es. }
+      rewrite <- BC in Hin. destruct Hin.
+    + symmetry in G. apply app_eq_nil in G. destruct G as [_ G]. now apply wrap_go_nonempty in G.
+  - intros H. rewrite (linesplit_no_words inp columns H) in E. now injection E as <-.
+Qed.
+
+(* (d): the gaps handed to the joiner are non-empty blocks of whitespace cells, one
+   between each two consecutive words (blocks_gaps_partition says where they lie);
+   meet_joiner_uniform / meet_joiner_le say what the joining space then looks like *)
+Theorem linesplit_gaps inp :
+  let L := op_cells inp in
+  Forall (fun g => g <> [] /\ forall c, In c g -> cell_space c = true) (inner_gaps cell_space L) /\
+  length (inner_gaps cell_space L) = pred (length (blocks cell_space L)) /\
+  exists lead trail, all_sp cell_space lead /\ all_sp cell_space trail /\
+    L = lead ++ interleave (blocks cell_space L) (inner_gaps cell_space L) ++ trail.
+Proof.
+  intros L. split; [|split].
+  - apply gaps_go_spaces. intros ? [].
+  - apply gaps_blocks_length.
+  - apply blocks_gaps_partition.
 Qed.
 End Main.
